@@ -123,7 +123,8 @@ class PairEngine:
        is_m_write(path_rel_to_tds) and the B primitive recogniser."""
 
     def __init__(self, prog, mod, resources, m_fields=STORAGE_FIELDS, b_prim=None, m_prim=None,
-                 snapshot_resets=True, m_pred=None, correlated=None, replace_table=None):
+                 snapshot_resets=True, m_pred=None, correlated=None, replace_table=None,
+                 infeasible=None, replace_is_m=True, b_after_m=False):
         self.prog = prog
         self.mod = mod
         self.R = resources
@@ -136,6 +137,13 @@ class PairEngine:
         self.edge_events = {}
         self.replace_table = replace_table or {}   # q -> reason: whole-Tds replacement argued safe
         self.replace_sites = []                    # (q, line, classified?)
+        # q -> [(callee qname, 'err' | 'ok', reason)]: result edges of a call that cannot be taken
+        self.infeasible = infeasible or {}
+        self.cut = {}
+        self.replace_is_m = replace_is_m
+        # order-aware pairing: a B event counts only once M has happened on the path
+        self.b_after_m = b_after_m
+        self.summary1 = {}   # outcomes when the function is entered with M already set
         self.summary = {}   # (q, resource index) -> frozenset of (m,b)
         self.block_in = {}  # (q, ridx) -> {bb: set}
         self.trace = {}     # (q, ridx) -> {bb: [events]}
@@ -223,7 +231,8 @@ class PairEngine:
                             if (owner, True) not in [(a, c) for a, _, c in self.replace_sites]:
                                 self.replace_sites.append((owner, s.line, True))
                         else:
-                            ev[blk.idx].append(('m', s.line, 'whole replacement of ' + repr(s.place)))
+                            if self.replace_is_m:
+                                ev[blk.idx].append(('m', s.line, 'whole replacement of ' + repr(s.place)))
                             if (owner, False) not in [(a, c) for a, _, c in self.replace_sites]:
                                 self.replace_sites.append((owner, s.line, False))
                     else:
@@ -235,6 +244,7 @@ class PairEngine:
                             ev[blk.idx].append(('call', cq, cidx, s.line))
                             if self.snapshot_resets and self._closure_snapshots(cq, cidx):
                                 ev[blk.idx].append(('snap', s.line))
+            ev[blk.idx].extend(self.extra_block_events(q, r, body, al, blk))
             t = blk.term
             if t.k == 'call':
                 if self.b_prim(body, al, t, r):
@@ -262,7 +272,7 @@ class PairEngine:
                             if tp is not None and ctp is not None and tt[1] + ctp == tp:
                                 edges = self._correlated_edges(body, blk.idx, t)
                                 if edges is None:
-                                    ev[blk.idx].append(('call', name, cidx, t.line))
+                                    ev[blk.idx].append((self.adjust_call(q, r, body, al, t, name, cidx), name, cidx, t.line))
                                 else:
                                     ev[blk.idx].append(('call_b', name, cidx, t.line))
                                     for e_ in edges:
@@ -294,6 +304,8 @@ class PairEngine:
                     root, fields, derefd = al.norm(t.dest)
                     if derefd and self._touches_storage(r, root, fields):
                         ev[blk.idx].append(('m', t.line, repr(t.dest)))
+        for e_, lst in self.extra_edge_events(q, r, body, al).items():
+            eev.setdefault(e_, []).extend(lst)
         return ev
 
     def _correlated_edges(self, body, bb, t):
@@ -507,12 +519,39 @@ class PairEngine:
             return False
         return any_real
 
-    def analyse(self, q, ridx):
+    def cut_edges(self, q):
+        if q in self.cut:
+            return self.cut[q]
+        body = self.prog.bodies[q]
+        edges = set()
+        owner = body.root or q
+        for (callee, which, _reason) in self.infeasible.get(owner, []) + (self.infeasible.get(q, []) if q != owner else []):
+            for bb, t in body.calls():
+                if (t.resolved or t.callee) != callee:
+                    continue
+                cf = flow.call_flow(body, bb)
+                edges |= (cf.err_edges if which == 'err' else cf.ok_edges)
+        self.cut[q] = edges
+        return edges
+
+    def extra_block_events(self, q, r, body, al, blk):
+        """Hook for subclasses: additional events of a block (list)."""
+        return []
+
+    def extra_edge_events(self, q, r, body, al):
+        """Hook for subclasses: {(src, dst): [events]}"""
+        return {}
+
+    def adjust_call(self, q, r, body, al, t, callee, cidx):
+        """Hook: 'call' (use the callee summary as is) or 'call_nob' (ignore its B part)."""
+        return 'call'
+
+    def analyse(self, q, ridx, entry_m=0):
         body = self.prog.bodies[q]
         if (q, ridx) not in self.trace:
             self.trace[(q, ridx)] = self._events(q, ridx)
         ev = self.trace[(q, ridx)]
-        start = frozenset({(0, 0, 1)})
+        start = frozenset({(entry_m, 0, 1)})
         state_in = {0: set(start)}
         work = deque([0])
         out_states = set()
@@ -528,7 +567,10 @@ class PairEngine:
             if not st:
                 continue
             eev = self.edge_events.get((q, ridx), {})
+            cut = self.cut_edges(q)
             for s in body.succs(b):
+                if (b, s) in cut:
+                    continue
                 st2 = st
                 for e in eev.get((b, s), ()):
                     st2 = self._apply(set(st2), e)
@@ -537,7 +579,8 @@ class PairEngine:
                     cur |= st2
                     if s not in work:
                         work.append(s)
-        self.block_in[(q, ridx)] = state_in
+        if entry_m == 0:
+            self.block_in[(q, ridx)] = state_in
         return frozenset((m, b) for (m, b, _) in out_states)
 
     def _apply(self, st, e):
@@ -545,6 +588,8 @@ class PairEngine:
         if k == 'm':
             return {(1, b, sv) for (m, b, sv) in st}
         if k == 'b':
+            if self.b_after_m:
+                return {(m, 1 if m else b, sv) for (m, b, sv) in st}
             return {(m, 1, sv) for (m, b, sv) in st}
         if k == 'replace_ok':
             return {(1, 1, sv) for (m, b, sv) in st}
@@ -554,7 +599,13 @@ class PairEngine:
             return {((0 if sv else 1), b, sv) for (m, b, sv) in st}
         if k == 'call':
             summ = self.summary.get((e[1], e[2]), frozenset())
+            if self.b_after_m:
+                summ1 = self.summary1.get((e[1], e[2]), frozenset())
+                return {(m | cm, b | cb, sv) for (m, b, sv) in st for (cm, cb) in (summ1 if m else summ)}
             return {(m | cm, b | cb, sv) for (m, b, sv) in st for (cm, cb) in summ}
+        if k == 'call_nob':
+            summ = self.summary.get((e[1], e[2]), frozenset())
+            return {(m | cm, b, sv) for (m, b, sv) in st for (cm, cb) in summ}
         if k == 'call_b':
             summ = self.summary.get((e[1], e[2]), frozenset())
             return {(m, b | cb, sv) for (m, b, sv) in st for (cm, cb) in summ}
@@ -578,6 +629,11 @@ class PairEngine:
                 if new != self.summary[k]:
                     self.summary[k] = new | self.summary[k]
                     changed = True
+                if self.b_after_m:
+                    new1 = self.analyse(k[0], k[1], entry_m=1)
+                    if new1 != self.summary1.get(k, frozenset()):
+                        self.summary1[k] = new1 | self.summary1.get(k, frozenset())
+                        changed = True
         self.rounds = rounds
 
     def witness_path(self, q, ridx):
@@ -601,7 +657,10 @@ class PairEngine:
                     goal = node
                     break
                 eev = self.edge_events.get((q, ridx), {})
+                cut = self.cut_edges(q)
                 for nb in body.succs(b):
+                    if (b, nb) in cut:
+                        continue
                     s3s = {s2}
                     for e in eev.get((b, nb), ()):
                         s3s = self._apply(s3s, e)
@@ -625,3 +684,26 @@ class PairEngine:
             for e in ev.get(b, []):
                 out.append({'bb': b, 'event': e[0], 'what': list(e[1:])})
         return {'blocks': [b for b, _ in path], 'events': out}
+
+
+def blame_chain(eng, q, i, depth=0, seen=None):
+    """From an obliged function down to the innermost body whose own events produce
+    (m and not b): list of names, the last one annotated with the offending write."""
+    seen = seen if seen is not None else set()
+    if (q, i) in seen or depth > 12:
+        return [q]
+    seen.add((q, i))
+    w = eng.witness_path(q, i)
+    if not w:
+        return [q]
+    for e in w['events']:
+        if e['event'] in ('call', 'call_m', 'call_nob'):
+            cq, ci = e['what'][0], e['what'][1]
+            if (1, 0) in eng.summary.get((cq, ci), ()):
+                return [q] + blame_chain(eng, cq, ci, depth + 1, seen)
+            if e['event'] == 'call_nob' and any(cm for (cm, cb) in eng.summary.get((cq, ci), ())):
+                return [q + ' {passes no live index to %s}' % cq]
+    ms = [e for e in w['events'] if e['event'] == 'm']
+    if ms:
+        return [q + ' {' + str(ms[0]['what'][-1]) + '}']
+    return [q]
